@@ -40,7 +40,7 @@ def _san(name):
 def decide(prop, tier, seed, args, t0):
     reg = registry_entry(prop)
     kf = load_known_findings()
-    known = {f["id"]: f for f in kf.get("findings", []) if f["property"] == prop}
+    known = {f["id"]: f for f in kf.get("findings", []) if f["property"] == prop or prop in f.get("also", [])}
     baseline = load_baseline().get(prop, {})
     ob_timeout_ms = int(reg.get("ob_timeout_ms", 30000 if tier == "quick" else 60000))
     max_paths = int(reg.get("max_paths", 20000))
@@ -83,7 +83,10 @@ def decide(prop, tier, seed, args, t0):
         mod = importlib.import_module(bm)
         bt0 = time.time()
         try:
-            out = mod.run(tier=tier, seed=seed)
+            import contextlib
+            import io
+            with contextlib.redirect_stdout(io.StringIO()), contextlib.redirect_stderr(io.StringIO()):
+                out = mod.run(tier=tier, seed=seed)
         except Exception as e:  # noqa
             import traceback
             out = {"name": bm, "error": f"{type(e).__name__}: {e}", "trace": traceback.format_exc()[-2000:]}
